@@ -2,6 +2,7 @@ mod gen;
 mod hist;
 mod lang;
 mod mk;
+mod reg;
 mod model;
 mod tagjson;
 
@@ -528,7 +529,8 @@ fn replay_hist_cmd(a: &HashMap<String, String>) -> i32 {
         }
         n += 1;
         steps += v["ops"].as_array().map(|o| o.len() as u64).unwrap_or(0);
-        let (obs, diffs) = hist::replay_hist(&v);
+        let (obs, diffs) = std::panic::catch_unwind(std::panic::AssertUnwindSafe(|| hist::replay_hist(&v)))
+            .unwrap_or_else(|_| (json!("panic"), vec!["the code under test panicked".to_string()]));
         if !diffs.is_empty() {
             bad += 1;
             let src = serde_json::to_string(&v["ops"]).unwrap();
@@ -539,6 +541,94 @@ fn replay_hist_cmd(a: &HashMap<String, String>) -> i32 {
     ow.flush().unwrap();
     println!("{}", serde_json::to_string(&json!({"vectors": n, "mismatches": bad, "runs": steps})).unwrap());
     if bad > 0 { 1 } else { 0 }
+}
+
+fn replay_reg_cmd(a: &HashMap<String, String>) -> i32 {
+    let path = a.get("in").expect("--in");
+    let out = a.get("out").cloned().unwrap_or_else(|| "/dev/null".into());
+    quiet_panics();
+    let f = BufReader::new(File::open(path).unwrap());
+    let mut ow = BufWriter::new(File::create(&out).unwrap());
+    let (mut n, mut bad, mut steps) = (0u64, 0u64, 0u64);
+    for line in f.lines() {
+        let line = line.unwrap();
+        if line.trim().is_empty() {
+            continue;
+        }
+        let v: Value = serde_json::from_str(&line).expect("vector json");
+        if v.get("hdr").is_some() {
+            continue;
+        }
+        n += 1;
+        steps += v["ops"].as_array().map(|o| o.len() as u64).unwrap_or(0);
+        let (obs, diffs) = std::panic::catch_unwind(std::panic::AssertUnwindSafe(|| reg::replay_reg(&v)))
+            .unwrap_or_else(|_| (json!("panic"), vec!["the code under test panicked".to_string()]));
+        if !diffs.is_empty() {
+            bad += 1;
+            let src = serde_json::to_string(&v["ops"]).unwrap();
+            serde_json::to_writer(&mut ow, &json!({"vector": v, "src": src, "observed": obs, "diffs": diffs})).unwrap();
+            ow.write_all(b"\n").unwrap();
+        }
+    }
+    ow.flush().unwrap();
+    println!("{}", serde_json::to_string(&json!({"vectors": n, "mismatches": bad, "runs": steps})).unwrap());
+    if bad > 0 { 1 } else { 0 }
+}
+
+/// impl -> spec: random registration histories over a pool of colliding names
+fn gen_reg(a: &HashMap<String, String>) {
+    let seed: u64 = a.get("seed").and_then(|s| s.parse().ok()).unwrap_or(1);
+    let n: usize = a.get("n").and_then(|s| s.parse().ok()).unwrap_or(50);
+    let len: usize = a.get("len").and_then(|s| s.parse().ok()).unwrap_or(60);
+    let out = a.get("out").cloned().unwrap_or_else(|| ".".into());
+    let mut r = rng_from(seed);
+    quiet_panics();
+    let mut pool: Vec<String> = Vec::new();
+    for base in ["x", "X", "xy", "x_y", "http", "a1", "_", "0"] {
+        pool.push(base.to_string());
+        for suf in [".y", ".y.z", ".Y", "y"] {
+            pool.push(format!("{base}{suf}"));
+        }
+    }
+    let types = [Ty::Int, Ty::Bytes, Ty::Ip, Ty::Bool, Ty::arr(Ty::Int), Ty::map(Ty::arr(Ty::Bytes))];
+    write_ndjson::<Value>(&format!("{out}/schemes.ndjson"), &[]);
+    write_ndjson::<Value>(&format!("{out}/ctxs.ndjson"), &[]);
+    let mut tw = BufWriter::new(File::create(format!("{out}/trace.ndjson")).unwrap());
+    let mut nev = 0u64;
+    for h in 0..n {
+        let mut b = wirefilter::SchemeBuilder::new();
+        serde_json::to_writer(&mut tw, &json!({"ev": "reset", "id": nev, "h": h})).unwrap();
+        tw.write_all(b"\n").unwrap();
+        nev += 1;
+        for _ in 0..len {
+            let name = pool[r.random_range(0..pool.len())].clone();
+            let op = match r.random_range(0..10) {
+                0..=5 => json!({"op": "field", "name": name, "ty": types[r.random_range(0..types.len())], "opt": r.random_range(0..2) == 0}),
+                6..=8 => json!({"op": "func", "name": name}),
+                _ => json!({"op": "list", "ty": types[r.random_range(0..types.len())]}),
+            };
+            let res = reg::apply_reg(&mut b, &op);
+            serde_json::to_writer(&mut tw, &json!({"ev": "add", "id": nev, "h": h, "op": op, "res": res})).unwrap();
+            tw.write_all(b"\n").unwrap();
+            nev += 1;
+        }
+        let s = b.build();
+        let guarded = |p: &str| -> Value {
+            std::panic::catch_unwind(std::panic::AssertUnwindSafe(|| reg::probe(&s, p)))
+                .unwrap_or_else(|_| json!({"name": p, "panic": true}))
+        };
+        let mut probes: Vec<Value> = pool.iter().map(|p| guarded(p)).collect();
+        for extra in ["x.y.z.w", "nosuch", "XY"] {
+            probes.push(guarded(extra));
+        }
+        let cl = s.clone();
+        serde_json::to_writer(&mut tw, &json!({"ev": "built", "id": nev, "h": h, "probes": probes,
+            "summary": reg::summary(&s), "eq_clone": s == cl})).unwrap();
+        tw.write_all(b"\n").unwrap();
+        nev += 1;
+    }
+    tw.flush().unwrap();
+    println!("{}", serde_json::to_string(&json!({"events": nev, "histories": n})).unwrap());
 }
 
 fn main() {
@@ -560,6 +650,11 @@ fn main() {
             0
         }
         "replay-hist" => replay_hist_cmd(&a),
+        "replay-reg" => replay_reg_cmd(&a),
+        "gen-reg" => {
+            gen_reg(&a);
+            0
+        }
         other => {
             eprintln!("unknown subcommand {other}");
             2
